@@ -691,3 +691,275 @@ Proof.
     destruct (hp_rle_runs r x 1 acc) as [H1 H2]; [lia | exact Hlr | lia |].
     split; [exact H1|]. rewrite H2. cbn [map rev]. rewrite <- app_assoc. reflexivity.
 Qed.
+
+(* ------------------------------------------------------------------ *)
+(* 9. the code-length histogram counts every symbol that is used        *)
+
+Lemma hp_incN_length : forall h i d, length (incN h i d) = length h.
+Proof. intros. unfold incN, updN. apply upd_length. Qed.
+
+Lemma hp_incN_ge : forall h i d s, nthN h s <= nthN (incN h i d) s.
+Proof.
+  intros h i d s. unfold incN, updN, nthN.
+  destruct (Nat.eq_dec (N.to_nat i) (N.to_nat s)) as [E|E].
+  - rewrite E. destruct (le_lt_dec (length h) (N.to_nat s)) as [Hl|Hl].
+    + rewrite (nth_overflow h) by exact Hl. lia.
+    + rewrite nth_upd_same by exact Hl. lia.
+  - rewrite nth_upd_other by exact E. lia.
+Qed.
+
+Lemma hp_incN_same : forall h s, (N.to_nat s < length h)%nat ->
+  nthN (incN h s 1) s = nthN h s + 1.
+Proof. intros h s Hs. unfold incN, updN, nthN. apply nth_upd_same. exact Hs. Qed.
+
+Lemma hp_hist_length : forall (items : list (N * N)) h,
+  length (fold_left (fun h it => incN h (fst it) 1) items h) = length h.
+Proof.
+  induction items as [|it r IH]; intros h; [reflexivity|].
+  cbn [fold_left]. rewrite IH. apply hp_incN_length.
+Qed.
+
+Lemma hp_hist_mono : forall (items : list (N * N)) h s,
+  nthN h s <= nthN (fold_left (fun h it => incN h (fst it) 1) items h) s.
+Proof.
+  induction items as [|it r IH]; intros h s; [cbn [fold_left]; lia|].
+  cbn [fold_left]. pose proof (IH (incN h (fst it) 1) s). pose proof (hp_incN_ge h (fst it) 1 s). lia.
+Qed.
+
+Lemma hp_hist_in : forall (items : list (N * N)) h it, In it items ->
+  (N.to_nat (fst it) < length h)%nat ->
+  nthN (fold_left (fun h it => incN h (fst it) 1) items h) (fst it) <> 0.
+Proof.
+  induction items as [|x r IH]; intros h it HIn Hl; [destruct HIn|].
+  cbn [fold_left]. destruct HIn as [->|HIn].
+  - pose proof (hp_hist_mono r (incN h (fst it) 1) (fst it)) as H.
+    rewrite hp_incN_same in H by exact Hl. lia.
+  - apply IH; [exact HIn|]. rewrite hp_incN_length. exact Hl.
+Qed.
+
+(* ------------------------------------------------------------------ *)
+(* 10. small list facts                                                 *)
+
+Lemma hp_Forall_firstn : forall A (P : A -> Prop) n l, Forall P l -> Forall P (firstn n l).
+Proof.
+  intros A P n l H. rewrite Forall_forall in *. intros x Hx. apply H.
+  eapply hp_firstn_In. exact Hx.
+Qed.
+
+Lemma hp_kraft_firstn : forall maxl n l, kraft maxl (firstn n l) <= kraft maxl l.
+Proof.
+  intros maxl. induction n as [|n IH]; intros l.
+  - cbn [firstn kraft]. lia.
+  - destruct l as [|x r]; [cbn [firstn kraft]; lia|].
+    cbn [firstn kraft]. specialize (IH r). lia.
+Qed.
+
+Lemma hp_oversub_firstn : forall maxl n (l : list N),
+  oversubscribed maxl (map N.to_nat l) = false ->
+  oversubscribed maxl (map N.to_nat (firstn n l)) = false.
+Proof.
+  intros maxl n l H. unfold oversubscribed in *. apply N.ltb_ge in H. apply N.ltb_ge.
+  rewrite <- firstn_map. pose proof (hp_kraft_firstn maxl n (map N.to_nat l)). lia.
+Qed.
+
+Lemma hp_Forall_to_nat : forall m (l : list N), Forall (fun x => x <= N.of_nat m) l ->
+  Forall (fun x => (x <= m)%nat) (map N.to_nat l).
+Proof.
+  intros m l H. rewrite Forall_forall in *. intros x Hx.
+  apply in_map_iff in Hx. destruct Hx as [y [<- Hy]]. specialize (H y Hy). lia.
+Qed.
+
+Lemma hp_nth_firstn : forall A i n (l : list A) d, (i < n)%nat -> nth i (firstn n l) d = nth i l d.
+Proof.
+  intros A. induction i as [|i IH]; intros n l d Hi.
+  - destruct n as [|n]; [lia|]. destruct l; reflexivity.
+  - destruct n as [|n]; [lia|]. destruct l as [|x r]; [reflexivity|].
+    cbn [firstn nth]. apply IH. lia.
+Qed.
+
+Lemma hp_firstn_app_exact : forall A (a b : list A), firstn (length a) (a ++ b) = a.
+Proof.
+  intros A a b. rewrite firstn_app, Nat.sub_diag, firstn_all. cbn [firstn]. apply app_nil_r.
+Qed.
+
+Lemma hp_skipn_app_exact : forall A (a b : list A), skipn (length a) (a ++ b) = b.
+Proof.
+  intros A a b. rewrite skipn_app, Nat.sub_diag, skipn_all. reflexivity.
+Qed.
+
+Lemma hp_flat_map_map : forall A B C (f : B -> list C) (g : A -> B) l,
+  flat_map f (map g l) = flat_map (fun x => f (g x)) l.
+Proof.
+  intros A B C f g. induction l as [|x r IH]; [reflexivity|].
+  cbn [map flat_map]. rewrite IH. reflexivity.
+Qed.
+
+Lemma hp_flat_map_bits_length : forall n vs,
+  length (flat_map (bits_of_N n) vs) = (n * length vs)%nat.
+Proof.
+  intros n. induction vs as [|v r IH]; [cbn; lia|].
+  cbn [flat_map length]. rewrite app_length, bits_of_N_length, IH. lia.
+Qed.
+
+Lemma hp_read_lens_0 : forall fuel ct acc s, read_lens fuel ct 0 acc s = HOk (frev acc) s.
+Proof. intros. destruct fuel; reflexivity. Qed.
+
+Lemma hp_nthN_Forall : forall (P : N -> Prop) l i, Forall P l -> P 0 -> P (nthN l i).
+Proof.
+  intros P l i H H0. unfold nthN.
+  destruct (le_lt_dec (length l) (N.to_nat i)) as [Hl|Hl].
+  - rewrite nth_overflow by exact Hl. exact H0.
+  - rewrite Forall_forall in H. apply H. apply nth_In. exact Hl.
+Qed.
+
+Lemma hp_clen_order_nodup : NoDup clen_order.
+Proof.
+  unfold clen_order.
+  repeat (constructor; [cbn [In]; intuition lia|]). constructor.
+Qed.
+
+Lemma hp_clen_order_all : forall j, (j < 19)%nat -> In j clen_order.
+Proof.
+  intros j Hj. unfold clen_order.
+  do 19 (destruct j as [|j]; [cbn [In]; repeat (first [left; reflexivity | right])|]). lia.
+Qed.
+
+Lemma hp_clen_order_lt : forall s, In s clen_order -> (s < 19)%nat.
+Proof. intros s H. unfold clen_order in H. cbn [In] in H. intuition lia. Qed.
+
+Lemma hp_hclen_order_eq : hclen_order = map N.of_nat clen_order.
+Proof. reflexivity. Qed.
+
+(* ------------------------------------------------------------------ *)
+(* 11. the code length code lengths, scattered back                     *)
+
+Lemma hp_scatter_cllens : forall ll dl, length (h_cllens ll dl) = 19%nat ->
+  scatter clen_order
+    (map N.to_nat (map (nthN (h_cllens ll dl)) (firstn (N.to_nat (h_codesize ll dl)) hclen_order)))
+    (repeat 0%nat 19) = map N.to_nat (h_cllens ll dl).
+Proof.
+  intros ll dl Hlen.
+  set (L := map N.to_nat (h_cllens ll dl)).
+  assert (HL : length L = 19%nat) by (unfold L; rewrite map_length; exact Hlen).
+  replace (repeat 0%nat 19) with (repeat 0%nat (length L)) by (rewrite HL; reflexivity).
+  rewrite hp_hclen_order_eq, firstn_map, !map_map.
+  rewrite (map_ext (fun x => N.to_nat (nthN (h_cllens ll dl) (N.of_nat x))) (fun s => nth s L 0%nat)).
+  2:{ intros s. unfold nthN, L. rewrite Nat2N.id.
+      exact (eq_sym (map_nth N.to_nat (h_cllens ll dl) 0 s)). }
+  apply hp_scatter_firstn.
+  - exact hp_clen_order_nodup.
+  - intros j Hj. apply hp_clen_order_all. lia.
+  - intros s Hs. rewrite HL. apply hp_clen_order_lt. exact Hs.
+  - intros s Hs. unfold L.
+    change 0%nat with (N.to_nat 0) at 1. rewrite map_nth.
+    pose proof (hp_codesize_zero ll dl (N.of_nat s)) as Hz.
+    unfold nthN in Hz. rewrite Nat2N.id in Hz. rewrite Hz; [reflexivity|].
+    rewrite hp_hclen_order_eq, skipn_map. apply in_map. exact Hs.
+Qed.
+
+(* ------------------------------------------------------------------ *)
+(* 12. the header round trip                                            *)
+
+Theorem header_ok : header_statement.
+Proof.
+  unfold header_statement.
+  intros ll dl final rest p Hll Hdl Fll Fdl Oll Odl H256 Hval.
+  (* the literal/length lengths that are sent *)
+  pose proof (hp_used_count_nz ll 256 H256) as Hlit_lo.
+  pose proof (hp_used_count_le ll) as Hlit_hi. rewrite Hll in Hlit_hi.
+  set (T := trim ll).
+  assert (HTlen : length T = N.to_nat (used_count ll)).
+  { unfold T, trim. rewrite firstn_length. lia. }
+  assert (HTF : Forall (fun x => x <= 15) T) by (apply hp_Forall_firstn; exact Fll).
+  assert (HTO : oversubscribed 15 (map N.to_nat T) = false) by (apply hp_oversub_firstn; exact Oll).
+  (* the distance lengths that are sent *)
+  pose proof (hp_used_count_le dl) as Hdist_hi. rewrite Hdl in Hdist_hi.
+  set (D := dist_lens_sent dl).
+  assert (HDlen : length D = N.to_nat (h_distnum dl)).
+  { unfold D, dist_lens_sent, h_distnum, trim. destruct (used_count dl =? 0) eqn:E; [reflexivity|].
+    rewrite firstn_length. lia. }
+  assert (HDnum : 1 <= h_distnum dl <= 30).
+  { unfold h_distnum. destruct (used_count dl =? 0) eqn:E; lia. }
+  assert (HDF : Forall (fun x => x <= 15) D).
+  { unfold D, dist_lens_sent. destruct (used_count dl =? 0).
+    - constructor; [lia | constructor].
+    - apply hp_Forall_firstn. exact Fdl. }
+  assert (HDO : oversubscribed 15 (map N.to_nat D) = false).
+  { unfold D, dist_lens_sent. destruct (used_count dl =? 0).
+    - reflexivity.
+    - apply hp_oversub_firstn. exact Odl. }
+  (* the three tries *)
+  destruct (kraft_sufficient 15 (map N.to_nat T)) as [lt Hlt];
+    [lia | apply (hp_Forall_to_nat 15); exact HTF | exact HTO |].
+  destruct (kraft_sufficient 15 (map N.to_nat D)) as [dt Hdt];
+    [lia | apply (hp_Forall_to_nat 15); exact HDF | exact HDO |].
+  fold (h_cllens ll dl) in Hval.
+  destruct Hval as [Hcl_len [Hcl_F [Hcl_O Hcl_nz]]].
+  assert (Hcl19 : length (h_cllens ll dl) = 19%nat).
+  { rewrite Hcl_len. unfold cl_hist. rewrite hp_hist_length. reflexivity. }
+  destruct (kraft_sufficient 7 (map N.to_nat (h_cllens ll dl))) as [ct Hct];
+    [lia | apply (hp_Forall_to_nat 7); exact Hcl_F | exact Hcl_O |].
+  (* the items *)
+  assert (Hdata : cl_data ll dl = alphabet T ++ alphabet D) by apply hp_cl_data_eq.
+  destruct (hp_alphabet T [] HTF) as [HokT HrunT]; [lia|].
+  destruct (hp_alphabet D (run_items (alphabet T) []) HDF) as [HokD HrunD]; [lia|].
+  assert (Hok : items_ok (cl_data ll dl) []).
+  { rewrite Hdata. apply hp_items_ok_app; assumption. }
+  assert (Hrun : run_items (cl_data ll dl) [] = rev (map N.to_nat D) ++ rev (map N.to_nat T)).
+  { rewrite Hdata, hp_run_items_app, HrunD, HrunT, app_nil_r. reflexivity. }
+  assert (Hcount : items_count (cl_data ll dl) = (length T + length D)%nat).
+  { pose proof (hp_run_items_length (cl_data ll dl) []) as H. rewrite Hrun in H.
+    rewrite app_length, !rev_length, !map_length in H. cbn [length] in H. lia. }
+  assert (Hdec : Forall (item_decodes ct (gen_codes (h_cllens ll dl))) (cl_data ll dl)).
+  { pose proof (hp_items_ok_le18 _ _ Hok) as H18. rewrite Forall_forall in *.
+    intros it Hit. specialize (H18 it Hit). unfold item_decodes. intros rest0 p0.
+    apply (hp_code_decodes _ 7); [exact Hct|].
+    apply Hcl_nz. unfold cl_hist. apply hp_hist_in; [exact Hit|].
+    rewrite repeat_length. lia. }
+  exists (header_body ll dl), lt, dt.
+  split; [apply hp_header_bits|]. split; [exact Hlt|]. split; [exact Hdt|].
+  (* parsing *)
+  pose proof (hp_codesize_bounds ll dl) as Hcs.
+  unfold header_body. rewrite <- !app_assoc.
+  rewrite <- (hp_flat_map_map _ _ _ (bits_of_N 3) (nthN (h_cllens ll dl))).
+  set (vs := map (nthN (h_cllens ll dl)) (firstn (N.to_nat (h_codesize ll dl)) hclen_order)).
+  assert (Hvs_len : length vs = N.to_nat (h_codesize ll dl)).
+  { unfold vs. rewrite map_length, firstn_length. change (length hclen_order) with 19%nat. lia. }
+  assert (Hvs_F : Forall (fun v => v < 8) vs).
+  { unfold vs. rewrite Forall_forall. intros v Hv. apply in_map_iff in Hv.
+    destruct Hv as [s [<- _]].
+    apply (hp_nthN_Forall (fun v => v < 8)); [|lia].
+    rewrite Forall_forall in *. intros x Hx. specialize (Hcl_F x Hx). lia. }
+  set (ibits := flat_map (item_bits (gen_codes (h_cllens ll dl))) (cl_data ll dl)).
+  unfold h_litnum.
+  unfold dyn_header.
+  rewrite hp_take_num by (change (2 ^ N.of_nat 5) with 32; lia). cbv iota beta.
+  rewrite hp_take_num by (change (2 ^ N.of_nat 5) with 32; lia). cbv iota beta.
+  rewrite hp_take_num by (change (2 ^ N.of_nat 4) with 16; lia). cbv iota beta.
+  assert (E29 : ((29 <? used_count ll - 257) || (29 <? h_distnum dl - 1)) = false).
+  { apply orb_false_iff. split; apply N.ltb_ge; lia. }
+  rewrite E29.
+  replace (N.to_nat (h_codesize ll dl - 4) + 4)%nat with (length vs) by lia.
+  rewrite hp_read_clens by exact Hvs_F. cbv iota beta.
+  unfold vs at 2. rewrite hp_scatter_cllens by exact Hcl19.
+  rewrite Hct.
+  replace (N.to_nat (used_count ll - 257) + 257)%nat with (length T) by lia.
+  replace (N.to_nat (h_distnum dl - 1) + 1)%nat with (length D) by lia.
+  unfold ibits.
+  rewrite hp_read_lens_items; [| exact Hok | exact Hdec | | ].
+  2:{ pose proof (hp_items_count_ge (cl_data ll dl)). lia. }
+  2:{ lia. }
+  rewrite Hcount, Nat.sub_diag, hp_read_lens_0. rewrite Hrun.
+  rewrite frev_rev, rev_app_distr, !rev_involutive.
+  rewrite <- (map_length N.to_nat T).
+  rewrite hp_firstn_app_exact, hp_skipn_app_exact.
+  assert (E256 : (nth 256 (map N.to_nat T) 0 =? 0)%nat = false).
+  { apply Nat.eqb_neq. change 0%nat with (N.to_nat 0) at 1. rewrite map_nth.
+    unfold T, trim. rewrite hp_nth_firstn by lia. unfold nthN in H256.
+    change (N.to_nat 256) with 256%nat in H256. lia. }
+  rewrite E256, Hlt, Hdt.
+  do 2 f_equal.
+  rewrite !app_length, !bits_of_N_length, hp_flat_map_bits_length. lia.
+Qed.
+
+Print Assumptions header_ok.
